@@ -150,6 +150,17 @@ func findRangeIndex(v ssa.Value, depth int) ssa.Value {
 		}
 	case *ssa.Convert:
 		return findRangeIndex(x.X, depth+1)
+	case *ssa.Extract:
+		return findRangeIndex(x.Tuple, depth+1)
+	case *ssa.Call:
+		// an offset computed by a helper of the library from the index
+		if g := x.Call.StaticCallee(); g != nil && InLib(g) {
+			for _, a := range x.Call.Args {
+				if r := findRangeIndex(a, depth+1); isRangeIdx(r) {
+					return r
+				}
+			}
+		}
 	}
 	return v
 }
@@ -166,9 +177,11 @@ func ruleF11(c *Ctx) *RuleResult {
 			continue
 		}
 		read := map[*types.Var]bool{}
-		for _, a := range accessesIn(get) {
-			if !a.write {
-				read[a.field] = true
+		for _, g := range append([]*ssa.Function{get}, sameRecvCallees(get)...) {
+			for _, a := range accessesIn(g) {
+				if !a.write {
+					read[a.field] = true
+				}
 			}
 		}
 		for _, a := range accessesIn(set) {
@@ -262,6 +275,26 @@ func ruleG4b(c *Ctx) *RuleResult {
 			for _, st := range storesToField(c, fn, f) {
 				n++
 				key := fmt.Sprintf("%s|copy %s#%d", FuncName(fn), tf, n)
+				// the value copied is the leading stream's: a load of the same field through Muxer.leadingStream
+				if sf, base := loadedField(stripConv(st.Val)); sf == f && base != nil {
+					bf, _ := loadedField(stripConv(base))
+					skey := fmt.Sprintf("%s|source %s#%d", FuncName(fn), tf, n)
+					swhat := "the value copied is the one of m.leadingStream"
+					switch {
+					case bf == leadF:
+						r.ok(skey, c.Pos(st.Pos()), FuncName(fn), swhat, "read through Muxer.leadingStream")
+					case bf != nil:
+						r.fail(skey, c.Pos(st.Pos()), FuncName(fn), swhat, "the value is read through "+c.fieldName(bf)+": a stream chosen by position is the leading one only when the video track is listed first; otherwise the rendition copies its own, never computed, target duration (0)")
+					default:
+						if _, isIdx := stripConv(base).(*ssa.UnOp); isIdx {
+							if ia, ok := stripConv(base).(*ssa.UnOp).X.(*ssa.IndexAddr); ok {
+								if xf, _ := loadedField(ia.X); xf != nil {
+									r.fail(skey, c.Pos(st.Pos()), FuncName(fn), swhat, "the value is read from an element of "+c.fieldName(xf)+" chosen by position: that is the leading stream only when the video track is listed first; otherwise the rendition announces a target duration of 0")
+								}
+							}
+						}
+					}
+				}
 				if leadCall != nil && instrDominates(leadCall, st) {
 					r.ok(key, c.Pos(st.Pos()), FuncName(fn), "the copy happens after the leading stream was rotated", "dominated by the rotation of m.leadingStream")
 				} else {
@@ -440,7 +473,7 @@ func ruleG11(c *Ctx) *RuleResult {
 			last := pred.Instrs[len(pred.Instrs)-1]
 			// the automatic default must only be chosen when no user default exists: every If on a value derived
 			// from hasDefaultAudio must have been false
-			conds := ifsOn(start, func(v ssa.Value) bool { return hasDefault != nil && derivesFromPhi(v, hasDefault, 0) })
+			conds := ifsOnV(start, func(v ssa.Value) bool { return hasDefault != nil && derivesFromPhi(v, hasDefault, 0) })
 			// and must not depend on this track's own IsDefault flag
 			usesUser := false
 			for _, ci := range ifsOn(start, func(v ssa.Value) bool {
@@ -1045,6 +1078,13 @@ func ruleT7c(c *Ctx) *RuleResult {
 	// a helper of the package that fixes the last part's size and returns its end: every non-constant return is an
 	// end value, and the size of the same part is stored before it
 	endHelper := func(v ssa.Value) bool {
+		ridx, nres := 0, 1
+		if ex, isEx := v.(*ssa.Extract); isEx {
+			// one result of a helper that also reports whether there was a last part
+			v = ex.Tuple
+			ridx = ex.Index
+			nres = 0
+		}
 		hc, ok := v.(*ssa.Call)
 		if !ok || hc.Call.StaticCallee() == nil || !storagePkg(hc.Call.StaticCallee()) || hc.Call.StaticCallee().Blocks == nil {
 			return false
@@ -1053,10 +1093,10 @@ func ruleT7c(c *Ctx) *RuleResult {
 		okAll, any := true, false
 		for _, b := range h.Blocks {
 			ret, isRet := b.Instrs[len(b.Instrs)-1].(*ssa.Return)
-			if !isRet || len(ret.Results) != 1 {
+			if !isRet || (nres == 1 && len(ret.Results) != 1) || ridx >= len(ret.Results) {
 				continue
 			}
-			rv := retVal(ret, 0)
+			rv := retVal(ret, ridx)
 			if k, isK := constInt(rv); isK && k == 0 {
 				continue
 			}
@@ -1168,7 +1208,7 @@ func ruleG12(c *Ctx) *RuleResult {
 	n := 0
 	for _, fn := range fns {
 		cnt := 0
-		conds := ifsOn(fn, func(v ssa.Value) bool { f, _ := loadedField(v); return f == lead })
+		conds := ifsOnV(fn, func(v ssa.Value) bool { f, _ := loadedField(v); return f == lead })
 		allInstrs(fn, func(in ssa.Instruction) {
 			call, ok := in.(*ssa.Call)
 			if !ok || !call.Call.IsInvoke() {
